@@ -20,7 +20,8 @@ SCOPE = {
     "quick": "every labelled graph on <=3 nodes: node variants {or, and} x 4 (is_viable, is_necessary) labels + defense x "
              "{(T,T),(F,F)} + (n<=2) exist/notExist with a False label; every edge set incl. self loops (2^(n*n)); plus double "
              "edges on n<=2; every node order is covered by the labelling; attacker variants: none / one attacker having "
-             "reached a subset of the nodes (all subsets for n<=2; none and all-nodes for n=3); "
+             "reached a subset of the nodes (all subsets for n<=2; for n=3: none on every graph, all-nodes on 8 "
+             "representative edge sets per labelling); "
              "+ 4000 seeded random graphs of 4-6 nodes with double edges and two attackers",
     "thorough": "as quick, all attacker subsets on n=3, + every labelling of 4 nodes that has a prunable node x 20 seeded random edge sets x random attacker subset, + 150000 "
                 "random graphs of 4-8 nodes",
@@ -37,6 +38,16 @@ CHUNK = 2000
 OA = [(t, v, n) for t in ("or", "and") for (v, n) in ((True, True), (False, True), (True, False), (False, False))]
 VARS3 = OA + [("defense", True, True), ("defense", False, False)]
 VARS2 = VARS3 + [("exist", False, True), ("notExist", True, False), ("defense", True, False)]
+
+
+def _m3(*pairs):
+    return sum(1 << (i * 3 + j) for (i, j) in pairs)
+
+
+# edge sets on 3 nodes that are combined with an attacker in the quick tier (the attacker only matters to the
+# detaching of a removed node from its attackers, which does not look at edges)
+ATT3_MASKS = {0, 511, _m3((0, 0), (1, 1), (2, 2)), _m3((0, 1), (1, 2)), _m3((2, 1), (1, 0)), _m3((0, 1), (1, 2), (2, 0)),
+              _m3((0, 2), (2, 2)), _m3((1, 0), (1, 2), (1, 1))}
 
 
 def prunable(v):
@@ -57,6 +68,8 @@ def cases(tier, seed):
             for mask in range(1 << len(pairs)):
                 edges = [list(pairs[k]) for k in range(len(pairs)) if mask >> k & 1]
                 for am in amasks:
+                    if am and n == 3 and tier == "quick" and mask not in ATT3_MASKS:
+                        continue
                     yield {"nodes": nodes, "edges": edges,
                            "att": [[i for i in range(n) if am >> i & 1]] if am else []}
                 if n <= 2 and edges:
